@@ -113,6 +113,46 @@ func filt(name string) quadtree.FilterFunc {
 	return nil
 }
 
+// innerTree is an unrelated, never modified 5-point tree that re-entrant filters query.
+var innerTree, innerItems = func() (*quadtree.Quadtree, []*item) {
+	q := quadtree.New(orb.Bound{Min: orb.Point{-1, -1}, Max: orb.Point{6, 3}})
+	var its []*item
+	for i := 0; i < 5; i++ {
+		it := &item{id: 1000 + i, p: orb.Point{float64(i), 1}}
+		its = append(its, it)
+		_ = q.Add(it)
+	}
+	return q, its
+}()
+
+// refilt builds the re-entrant variants "reeven"/"reodd" (class B): before
+// answering by id parity the callback queries the unrelated tree and the very
+// tree being searched (read-only). A wrong inner answer turns the verdict of the
+// filter around, which shows up as a concurrent answer different from the
+// answer when run alone (or trips the race detector).
+func refilt(name string, q *quadtree.Quadtree) quadtree.FilterFunc {
+	want := 0
+	switch name {
+	case "reeven":
+	case "reodd":
+		want = 1
+	default:
+		return filt(name)
+	}
+	return func(p orb.Pointer) bool {
+		it := p.(*item)
+		i := it.id % 5
+		ok := innerTree.Find(orb.Point{float64(i), 1.125}) == orb.Pointer(innerItems[i])
+		if r := innerTree.KNearest(nil, orb.Point{float64(i), 1.125}, 2); len(r) != 2 || r[0] != orb.Pointer(innerItems[i]) {
+			ok = false
+		}
+		if r := q.Find(it.p); r == nil || d2(r.Point(), it.p) != 0 {
+			ok = false
+		}
+		return (it.id%2 == want) == ok
+	}
+}
+
 type built struct {
 	q        *quadtree.Quadtree
 	b        orb.Bound
@@ -275,7 +315,7 @@ func run(q *quadtree.Quadtree, qu *query, reuse []orb.Pointer) answer {
 		if qu.f == "" {
 			p = q.Find(qu.qp)
 		} else {
-			p = q.Matching(qu.qp, filt(qu.f))
+			p = q.Matching(qu.qp, refilt(qu.f, q))
 		}
 		return answer{idOf(p)}
 	case "knn":
@@ -286,13 +326,13 @@ func run(q *quadtree.Quadtree, qu *query, reuse []orb.Pointer) answer {
 		if qu.f == "" {
 			res = q.KNearest(buf, qu.qp, qu.k, md...)
 		} else {
-			res = q.KNearestMatching(buf, qu.qp, qu.k, filt(qu.f), md...)
+			res = q.KNearestMatching(buf, qu.qp, qu.k, refilt(qu.f, q), md...)
 		}
 	case "inb":
 		if qu.f == "" {
 			res = q.InBound(buf, qu.box)
 		} else {
-			res = q.InBoundMatching(buf, qu.box, filt(qu.f))
+			res = q.InBoundMatching(buf, qu.box, refilt(qu.f, q))
 		}
 	}
 	out := make(answer, len(res))
@@ -599,11 +639,23 @@ type frame struct {
 }
 
 func genFrame(t *rapid.T) frame {
-	kind := rapid.SampledFrom([]string{"unit8", "unit8", "shifted", "fine", "nonsquare", "float"}).Draw(t, "frame")
+	kind := rapid.SampledFrom([]string{"unit8", "decimal", "shifted", "fine", "nonsquare", "float", "unit8", "decimal"}).Draw(t, "frame")
 	f := frame{name: kind}
 	switch kind {
 	case "unit8":
 		f.min, f.max = orb.Point{0, 0}, orb.Point{8, 8}
+	case "decimal":
+		// non-dyadic edges: the plausible midline formulas round differently here
+		f.float = true
+		for axis := 0; axis < 2; axis++ {
+			den := rapid.SampledFrom([]float64{10, 3, 10, 7}).Draw(t, "den")
+			scale := rapid.SampledFrom([]float64{1, 1, 10, 1e-3, 1e3}).Draw(t, "scale")
+			off := rapid.SampledFrom([]float64{0, 0, 1, -5, 1000}).Draw(t, "off")
+			k1 := rapid.IntRange(-12, 11).Draw(t, "k1")
+			k2 := k1 + rapid.IntRange(1, 12).Draw(t, "dk")
+			f.min[axis] = off + scale*float64(k1)/den
+			f.max[axis] = off + scale*float64(k2)/den
+		}
 	case "float":
 		f.float = true
 		x := rapid.Float64Range(-1000, 1000).Draw(t, "x0")
@@ -629,10 +681,46 @@ func genFrame(t *rapid.T) frame {
 func (f frame) in(t *rapid.T, axis int) float64 {
 	lo, hi := f.min[axis], f.max[axis]
 	if f.float {
+		if rapid.Bool().Draw(t, "split") {
+			return splitCoord(t, lo, hi)
+		}
 		return rapid.Float64Range(lo, hi).Draw(t, "c")
 	}
 	den := rapid.SampledFrom([]int{2, 4, 4, 8, 8, 16, 1024}).Draw(t, "den")
 	return lo + (hi-lo)*float64(rapid.IntRange(0, den).Draw(t, "i"))/float64(den)
+}
+
+// splitCoord: a value the library may compute as a cell centre inside [lo, hi]
+// (depth 1..6, any of four formulas per level), or its one-ulp neighbour.
+func splitCoord(t *rapid.T, lo, hi float64) float64 {
+	mid := func(f int, a, b float64) float64 {
+		switch f {
+		case 1:
+			return a + (b-a)/2.0
+		case 2:
+			return a/2.0 + b/2.0
+		case 3:
+			return b - (b-a)/2.0
+		}
+		return (a + b) / 2.0
+	}
+	l, r := lo, hi
+	c := mid(rapid.IntRange(0, 3).Draw(t, "sf"), l, r)
+	for d := rapid.IntRange(0, 5).Draw(t, "sdepth"); d > 0; d-- {
+		if rapid.Bool().Draw(t, "sside") {
+			l = c
+		} else {
+			r = c
+		}
+		c = mid(rapid.IntRange(0, 3).Draw(t, "sf"), l, r)
+	}
+	switch rapid.IntRange(0, 4).Draw(t, "sulp") {
+	case 3:
+		c = math.Nextafter(c, math.Inf(-1))
+	case 4:
+		c = math.Nextafter(c, math.Inf(1))
+	}
+	return math.Min(hi, math.Max(lo, c))
 }
 
 func (f frame) anyCoord(t *rapid.T, axis int) float64 {
@@ -661,7 +749,7 @@ func genBuildOp(t *rapid.T, f frame, addW, rmW int) Op {
 func genQuery(t *rapid.T, f frame) Op {
 	op := Op{K: rapid.SampledFrom([]string{"find", "find", "knn", "knn", "knn", "inb", "inb"}).Draw(t, "q")}
 	op.P = gen.FromPt(f.anyPoint(t))
-	op.F = rapid.SampledFrom([]string{"", "", "nil", "even", "odd", "none", "all"}).Draw(t, "f")
+	op.F = rapid.SampledFrom([]string{"", "", "nil", "even", "odd", "none", "all", "reeven", "reodd"}).Draw(t, "f")
 	op.Sel = rapid.IntRange(0, 1<<16).Draw(t, "sel")
 	op.Hit = rapid.IntRange(0, 5).Draw(t, "hit") == 0
 	switch op.K {
@@ -779,7 +867,7 @@ func TestPropConcurrentQueries(t *testing.T) {
 	} else {
 		stats.Note("walker", "unavailable ("+theWalker.why+"): contents compared through InBound(tree bound) order and Bound() only")
 	}
-	stats.Check(t, 400, 20000, func(rt *rapid.T) {
+	stats.Check(t, 300, 14000, func(rt *rapid.T) {
 		c, f, shape := genCase(rt)
 		stats.Class("frame:" + f.name)
 		stats.Class("tree:" + shape)
@@ -832,6 +920,9 @@ func TestEnumFixedScenarios(t *testing.T) {
 		{K: "inb", Tgt: "tree"},
 		{K: "inb", P: gen.P{2, 2}, P2: gen.P{6, 6}, F: "odd", Buf: 4},
 		{K: "inb", P: gen.P{4, 4}, Tgt: "pointbox"},
+		{K: "knn", P: gen.P{4, 4}, N: 4, F: "reeven"},
+		{K: "inb", Tgt: "tree", F: "reodd"},
+		{K: "find", P: gen.P{5, 3}, F: "reodd"},
 	}
 	var chain []Op
 	for _, p := range []gen.P{{4, 4}, {6, 2}, {8, 0}, {4, 4}, {7, 1}, {5, 3}, {1, 7}, {7, 7}, {1, 1}, {6, 2}} {
@@ -872,7 +963,7 @@ func TestEnumFixedScenarios(t *testing.T) {
 			}
 		}
 	}
-	stats.Subspace("5 fixed trees (never populated, removal on never populated, grown, pulled-up, emptied) x {2, 8, 32 (concurrent first), 4, 16 (sequential first)} goroutines x 360 queries each", size, true)
+	stats.Subspace("5 fixed trees (never populated, removal on never populated, grown, pulled-up, emptied) x {2, 8, 32 (concurrent first), 4, 16 (sequential first)} goroutines x 480 queries each", size, true)
 }
 
 func TestReplay(t *testing.T) {
